@@ -567,6 +567,13 @@ def _failures(tname, v, tail, memo, path='$'):
     where = f'{tname}/{ctor}' if _multi(tname) else tname
     pre = f'{tname}/{ctor}.' if _multi(tname) else f'{tname}/'
     lc = lib_from_rcell(cell)
+    if path == '$':
+        # malformed inputs first (the same value cut short; its bits inverted): whatever the parser does with them - raise or
+        # return - it must not carry anything over into the parse of the well-formed value that follows
+        from harness.ref.refcell import RCell as _RC
+        for bad in (_RC(cell.bits[:len(cell.bits) // 2], cell.refs[:1]), _RC(cell.bits[:max(0, len(cell.bits) - 1)], []),
+                    _RC(''.join('1' if c == '0' else '0' for c in cell.bits), cell.refs)):
+            call(lambda: _lib_class(tname).deserialize(lib_from_rcell(bad).begin_parse()))
     cs = lc.begin_parse()
     ok, obj = call(_lib_class(tname).deserialize, cs)
     own = []                                          # failures attributed to this level unless a child explains them
@@ -829,6 +836,21 @@ def enum_cases(tier):
                     yield mk_case(ch, 'Transaction', d, 3)
                 except R.ModelError:
                     pass
+    # chains of nested transactions (prepare_transaction:^Transaction inside split_install / merge_install), 4..14 deep
+    for kind in ('trans_split_install', 'trans_merge_install'):
+        alt = S.TransactionDescr.by_name[kind] if hasattr(S.TransactionDescr, 'by_name') else next(a for a in S.TransactionDescr.alts if a.name == kind)
+        for depth in (4, 9, 14):
+            try:
+                inner = mk_case(SmallChooser(R.HashChooser(f'c16tx-chain/{kind}/leaf')), 'Transaction',
+                                derive(trec, {'in_msg': False}, {'description': R.Ref(S.TransactionDescr.alts[1])}), 1)['v']
+                for lvl in range(depth):
+                    outer = mk_case(SmallChooser(R.HashChooser(f'c16tx-chain/{kind}/{lvl}')), 'Transaction',
+                                    derive(trec, {'in_msg': False}, {'description': R.Ref(alt)}), 1)['v']
+                    outer['description']['prepare_transaction'] = inner
+                    inner = outer
+                yield {'type': 'Transaction', 'v': inner, 'tail': {'bits': '101', 'nrefs': 0}}
+            except (R.ModelError, KeyError):
+                pass
     # descriptors around each envelope kind / each nested InMsg
     for env in S.MsgEnvelope.alts:
         for inm in S.InMsg.alts:
